@@ -29,7 +29,86 @@ func (ast *Ast) EquivalentCall(other *Ast) bool {
 		other.Callables == nil || other.Callables.Table == nil {
 		return false
 	}
+	ast.Callables.types = &ast.TypeTable
+	other.Callables.types = &other.TypeTable
 	return ast.Call.EquivalentTo(other.Call, ast.Callables, other.Callables)
+}
+
+// typeComparison compares parameter types of two ASTs by their definitions.
+type typeComparison struct {
+	mine, theirs *TypeLookup
+	// struct types being compared (by name)
+	visiting map[string]struct{}
+}
+
+func newTypeComparison(mine, theirs *Callables) *typeComparison {
+	if mine == nil || theirs == nil || mine.types == nil || theirs.types == nil {
+		return nil
+	}
+	return &typeComparison{mine: mine.types, theirs: theirs.types}
+}
+
+func isFileTypeName(name string, lookup *TypeLookup) bool {
+	t := lookup.Get(TypeId{Tname: name})
+	if t == nil {
+		return false
+	}
+	switch t.(type) {
+	case *UserType, *BuiltinType:
+		return t.IsFile() == KindIsFile
+	}
+	return false
+}
+
+// equalTypes returns true if the two type IDs denote the same type, where
+// all file types count as the same type and struct types are the same if
+// they have the same name and members of the same names and types.
+func (c *typeComparison) equalTypes(a, b TypeId) bool {
+	if a.ArrayDim != b.ArrayDim || a.MapDim != b.MapDim {
+		return false
+	}
+	if a.Tname != b.Tname {
+		return isFileTypeName(a.Tname, c.mine) &&
+			isFileTypeName(b.Tname, c.theirs)
+	}
+	sa, ok := c.mine.Get(TypeId{Tname: a.Tname}).(*StructType)
+	if !ok {
+		return true
+	}
+	sb, ok := c.theirs.Get(TypeId{Tname: b.Tname}).(*StructType)
+	if !ok {
+		return false
+	}
+	if _, ok := c.visiting[a.Tname]; ok {
+		return true
+	}
+	if c.visiting == nil {
+		c.visiting = make(map[string]struct{})
+	}
+	c.visiting[a.Tname] = struct{}{}
+	defer delete(c.visiting, a.Tname)
+	if len(sa.Members) != len(sb.Members) || sb.Table == nil {
+		util.PrintInfo("compare",
+			"Struct %s has a different number of members.",
+			sa.Id)
+		return false
+	}
+	for _, m := range sa.Members {
+		if om := sb.Table[m.Id]; om == nil {
+			util.PrintInfo("compare",
+				"Struct %s member %s not found.",
+				sa.Id, m.Id)
+			return false
+		} else if !c.equalTypes(m.Tname, om.Tname) {
+			util.PrintInfo("compare",
+				"Struct %s member %s changed type.",
+				sa.Id, m.Id)
+			return false
+		} else if m.OutName != om.OutName {
+			return false
+		}
+	}
+	return true
 }
 
 // Two calls are semantically equivalent if their (possibly aliased) names are
@@ -135,6 +214,10 @@ func (mods *Modifiers) EquivalentTo(other *Modifiers) bool {
 // Equals returns true if the two parameter sets share the same parameter
 // names and types.  Changes to file type names are ignored.
 func (params *InParams) Equals(other *InParams) bool {
+	return params.equals(other, nil)
+}
+
+func (params *InParams) equals(other *InParams, types *typeComparison) bool {
 	if params == nil || len(params.List) == 0 {
 		return other == nil || len(other.List) == 0
 	} else if other == nil || other.Table == nil ||
@@ -153,6 +236,10 @@ func (params *InParams) Equals(other *InParams) bool {
 			return false
 		} else if arg.IsFile() != oa.IsFile() {
 			return false
+		} else if types != nil {
+			if !types.equalTypes(arg.GetTname(), oa.GetTname()) {
+				return false
+			}
 		} else if arg.IsFile() != KindIsFile && arg.GetTname() != oa.GetTname() {
 			return false
 		}
@@ -164,6 +251,11 @@ func (params *InParams) Equals(other *InParams) bool {
 // names and types.  Changes to file type names are ignored.  If checkOutNames
 // is true, the output name for the parameters are also compared.
 func (params *OutParams) Equals(other *OutParams, checkOutNames bool) bool {
+	return params.equals(other, checkOutNames, nil)
+}
+
+func (params *OutParams) equals(other *OutParams, checkOutNames bool,
+	types *typeComparison) bool {
 	if params == nil || len(params.List) == 0 {
 		return other == nil || len(other.List) == 0
 	} else if other == nil || other.Table == nil ||
@@ -182,7 +274,10 @@ func (params *OutParams) Equals(other *OutParams, checkOutNames bool) bool {
 			return false
 		} else if arg.IsFile() != oa.IsFile() {
 			return false
-		} else if fk := arg.IsFile(); fk != KindIsFile &&
+		} else if fk := arg.IsFile(); types != nil &&
+			!types.equalTypes(arg.GetTname(), oa.GetTname()) {
+			return false
+		} else if types == nil && fk != KindIsFile &&
 			arg.GetTname() != oa.GetTname() {
 			return false
 		} else if (fk == KindIsFile || fk == KindIsDirectory) &&
@@ -205,12 +300,14 @@ func (pipeline *Pipeline) EquivalentTo(other Callable,
 	}
 	if op, ok := other.(*Pipeline); !ok {
 		return false
-	} else if !pipeline.InParams.Equals(op.InParams) {
+	} else if !pipeline.InParams.equals(op.InParams,
+		newTypeComparison(myCallables, otherCallables)) {
 		util.PrintInfo("compare",
 			"Pipeline %s in params unequal.",
 			pipeline.Id)
 		return false
-	} else if !pipeline.OutParams.Equals(op.OutParams, true) {
+	} else if !pipeline.OutParams.equals(op.OutParams, true,
+		newTypeComparison(myCallables, otherCallables)) {
 		util.PrintInfo("compare",
 			"Pipeline %s out params unequal.",
 			pipeline.Id)
@@ -244,7 +341,8 @@ func (pipeline *Pipeline) EquivalentTo(other Callable,
 // same types, and share the same splitting behavior.  All file types are
 // considered equal.  Resources, stage source code, and split ins/outs are
 // ignored.
-func (stage *Stage) EquivalentTo(other Callable, _, _ *Callables) bool {
+func (stage *Stage) EquivalentTo(other Callable,
+	myCallables, otherCallables *Callables) bool {
 	if stage == nil {
 		return other == nil
 	} else if other == nil {
@@ -256,12 +354,14 @@ func (stage *Stage) EquivalentTo(other Callable, _, _ *Callables) bool {
 			"Stage %s split status different.",
 			stage.Id)
 		return false
-	} else if !stage.InParams.Equals(os.InParams) {
+	} else if !stage.InParams.equals(os.InParams,
+		newTypeComparison(myCallables, otherCallables)) {
 		util.PrintInfo("compare",
 			"Stage %s in parameters unequal.",
 			stage.Id)
 		return false
-	} else if !stage.OutParams.Equals(os.OutParams, false) {
+	} else if !stage.OutParams.equals(os.OutParams, false,
+		newTypeComparison(myCallables, otherCallables)) {
 		util.PrintInfo("compare",
 			"Stage %s out parameters unequal.",
 			stage.Id)
